@@ -421,3 +421,97 @@ func VerifC19ConvertPanic() {
 	vassert(sawErr, "the panic of the conversion surfaces as an error item")
 	c19Finish([]*c19Prod{pa, pb}, "fan-in with a panicking conversion")
 }
+
+type c19MarkKey struct{}
+
+// a handler that marks the context when it hears a stream end, and a handler whose TimingChecker consults that mark
+type c19Sampler struct{ c10Rec }
+
+func (h *c19Sampler) OnEndWithStreamOutput(ctx context.Context, info *callbacks.RunInfo, output *schema.StreamReader[callbacks.CallbackOutput]) context.Context {
+	h.c10Rec.OnEndWithStreamOutput(ctx, info, output)
+	return context.WithValue(ctx, c19MarkKey{}, true)
+}
+
+type c19Tracer struct{ c10Rec }
+
+func (h *c19Tracer) Needed(ctx context.Context, info *callbacks.RunInfo, timing callbacks.CallbackTiming) bool {
+	marked, _ := ctx.Value(c19MarkKey{}).(bool)
+	return !marked
+}
+
+// every copy of a stream made for the callback handlers is handed to its handler or closed, also when a handler's
+// TimingChecker would answer differently once an earlier handler has changed the context
+func VerifC19TimingChecker() {
+	ctx := context.Background()
+	vcfg("preempt", 0)
+	vcfg("selectfirst", 1)
+	K := 3
+	pa := &c19Prod{key: "a", k: K}
+	g := NewGraph[map[string]any, map[string]any]()
+	_ = g.AddLambdaNode("a", pa.lambda(vchoose("cap", 2)))
+	_ = g.AddEdge(START, "a")
+	_ = g.AddEdge("a", END)
+	r, err := g.Compile(ctx)
+	vassert(err == nil, "graph compiles")
+	var evs []c10Ev
+	sampler := &c19Sampler{c10Rec{id: "sampler", evs: &evs, closeOut: true}}
+	tracer := &c19Tracer{c10Rec{id: "tracer", evs: &evs, closeOut: true}}
+	var opts []Option
+	if vchoose("order", 2) == 0 {
+		opts = []Option{WithCallbacks(sampler), WithCallbacks(tracer)}
+	} else {
+		opts = []Option{WithCallbacks(tracer), WithCallbacks(sampler)}
+	}
+	sr, err := r.Stream(ctx, map[string]any{"in": 1}, opts...)
+	vassert(err == nil, "stream run starts")
+	readN := vchoose("readN", K+2)
+	if readN == K+1 {
+		c19ReadAll(sr)
+	} else {
+		c19Read(sr, readN)
+	}
+	c19Finish([]*c19Prod{pa}, "callback copies with a context-dependent timing checker")
+}
+
+// an error chunk reaches a place where the framework turns a stream into a value (an invoke-only consumer, or
+// Collect on the graph) while the producer still has data: the run reports the error and the producer is released
+func VerifC19ErrorChunkToValue() {
+	ctx := context.Background()
+	vcfg("preempt", 0)
+	vcfg("selectfirst", 1)
+	K := 3
+	pa := &c19Prod{key: "a", k: K}
+	g := NewGraph[map[string]any, map[string]any]()
+	_ = g.AddLambdaNode("src", pa.lambdaWithErr(vchoose("cap", 2), vchoose("errAt", 2)))
+	consumer := vchoose("consumer", 2) == 1
+	if consumer {
+		_ = g.AddLambdaNode("c", InvokableLambda(func(ctx context.Context, in map[string]any) (map[string]any, error) { return in, nil }))
+		_ = g.AddEdge("src", "c")
+		_ = g.AddEdge("c", END)
+	} else {
+		_ = g.AddEdge("src", END)
+	}
+	_ = g.AddEdge(START, "src")
+	r, err := g.Compile(ctx)
+	vassert(err == nil, "graph compiles")
+	var rerr error
+	if consumer && vchoose("stream", 2) == 1 {
+		sr, e := r.Stream(ctx, map[string]any{"in": 1})
+		rerr = e
+		if e == nil {
+			for i := 0; i < 8; i++ {
+				if _, e := sr.Recv(); e != nil {
+					if e != io.EOF {
+						rerr = e
+					}
+					break
+				}
+			}
+			sr.Close()
+		}
+	} else {
+		_, rerr = r.Collect(ctx, schema.StreamReaderFromArray([]map[string]any{{"in": 1}}))
+	}
+	vassert(rerr != nil && errors.Is(rerr, c19ErrChunk), "the error chunk is reported")
+	c19Finish([]*c19Prod{pa}, "error chunk at a stream-to-value conversion")
+}
